@@ -8,6 +8,11 @@ import numpy as np
 import setigen.voltage as V
 
 
+def pk(c, p):
+    """probe kind of polarisation stream p (the y stream may carry a different custom source from x)"""
+    return c["probe"] if p == 0 else c.get("probe_y", c["probe"])
+
+
 def build(c):
     sr = c["sr"]
     kw = dict(sample_rate=sr, fch1=c["fch1"], ascending=c["ascending"], t_start=c["t0"] / sr, seed=c["seed"])
@@ -17,14 +22,14 @@ def build(c):
     else:
         obj = V.DataStream(**kw)
         streams = [obj]
-    for s in streams:
+    for si, s in enumerate(streams):
         for (m, sd) in c["noise"]:
             s.add_noise(v_mean=m, v_std=sd)
         for ch in c["chirps"]:
             s.add_constant_signal(f_start=ch["f_start"], drift_rate=ch["drift"], level=ch["level"], phase=ch["phase"])
-        if c["probe"] == "complex":
+        if pk(c, si) == "complex":
             s.add_signal(lambda ts: 1j * ts)
-        elif c["probe"] == "real":
+        elif pk(c, si) == "real":
             s.add_signal(lambda ts: ts * 0.0 + 0.25)
     return obj, streams
 
@@ -111,7 +116,7 @@ def run_case(c):
                 exp = exp + (m + sd * draws[p][f:f + n])
             for chv in chirp_ref(c, ts):
                 exp = exp + chv
-            if c["probe"] == "complex":
+            if pk(c, p) == "complex":
                 got_ts = np.imag(v)
                 if dyadic:
                     if not np.array_equal(got_ts, ts):
@@ -120,8 +125,10 @@ def run_case(c):
                     res["mism"].append("request %d pol %d: evaluation times off by %g" % (gi, p, float(np.max(np.abs(got_ts - ts)))))
                 got = np.real(v)
             else:
+                if np.iscomplexobj(v) and pk(c, p) != "complex" and np.any(np.imag(v) != 0):
+                    res["mism"].append("request %d pol %d: imaginary part on a stream without a complex source" % (gi, p))
                 got = np.real(v)
-                if c["probe"] == "real":
+                if pk(c, p) == "real":
                     exp = exp + 0.25
             if dyadic and not c["chirps"]:
                 ok = np.array_equal(got, exp)
@@ -132,9 +139,19 @@ def run_case(c):
                 ok = np.allclose(got, exp, rtol=0, atol=1e-3 * (1 + sum(abs(ch["level"]) for ch in c["chirps"]))) if c["chirps"] else np.allclose(got, exp, rtol=0, atol=1e-12)
             if not ok:
                 res["mism"].append("request %d pol %d: voltages differ from the model-described sum (max diff %g)" % (gi, p, float(np.max(np.abs(got - exp)))))
+    # --- direct oracle: a complex custom source is summed in on its own stream, whatever the other polarisation carries
+    for gi, out in enumerate(outs):
+        for p, v in enumerate(out):
+            if pk(c, p) == "complex":
+                if not np.iscomplexobj(v) or (len(v) > 1 and not np.any(np.imag(v) != 0)):       # the source returns 1j*ts: non-zero for all but one instant
+                    res["fails"].append(["custom-source-dropped", "request %d pol %d: the complex custom source of this stream is missing from the antenna's output (dtype %s)" % (gi, p, np.asarray(v).dtype)])
+                    break
+        else:
+            continue
+        break
     # --- direct oracle for the signal formula: without noise, each sample is the sum of level*cos(+-2pi((f_start-fch1)t + drift t^2/2) + phase)
     #     at the very times the stream handed to its sources (observed through the complex probe)
-    if c["chirps"] and not c["noise"] and c["probe"] == "complex":
+    if c["chirps"] and not c["noise"] and c["probe"] == "complex" and pk(c, 1) == "complex":
         tol = 1e-6 * (1 + sum(abs(ch["level"]) for ch in c["chirps"]))
         for gi, out in enumerate(outs):
             for p, v in enumerate(out):
@@ -159,7 +176,7 @@ def run_case(c):
         a, b = cat1[p], cat2[p]
         if a.shape != b.shape:
             res["fails"].append(["concat-length", "chunked total %d samples, merged %d" % (len(a), len(b))]); continue
-        if c["probe"] == "complex":
+        if pk(c, p) == "complex":
             ta, tb = np.imag(a), np.imag(b)
             okt = np.array_equal(ta, tb) if dyadic else np.allclose(ta, tb, rtol=0, atol=1e-9 * max(1.0, float(np.max(np.abs(tb))) if len(tb) else 1.0))
             if not okt:
@@ -173,7 +190,7 @@ def run_case(c):
         if not okv:
             key = "two-noise-sources-chunking" if len(c["noise"]) >= 2 else "concat-values"
             res["fails"].append([key, "pol %d: concatenated chunked voltages differ from the single request (max diff %g, %d noise sources)" % (p, float(np.max(np.abs(ra - rb))), len(c["noise"]))])
-    if c["antenna"] and c["pols"] == 2 and outs and dyadic and c["probe"] == "complex":
+    if c["antenna"] and c["pols"] == 2 and outs and dyadic and c["probe"] == "complex" and pk(c, 1) == "complex":
         if not np.array_equal(np.imag(outs[0][0]), np.imag(outs[0][1])):
             res["fails"].append(["antenna-stack", "x and y polarisations are not on the same timeline"])
     return res
